@@ -264,6 +264,36 @@ def fixed_programs():
                       ["NewRecord", c, "Activity", ["S", "ex:single"], []],
                       ["Unified", "0"], ch, ["Unified", "0"], ["ToGraph", "0"], ch, ["Unified", "0"]]
                 out.append(p)
+    # "raises exactly on conflict" (C08_conflict_always_raises / _any_attribute): groups of three in which the conflict
+    # is not with the first record — the first lacks the attribute and two later ones disagree; the first and the
+    # third disagree and the second lacks it; all three agree (must merge) — for time- and reference-valued formal
+    # attributes of elements and relations, prov:entity of non-memberships included, in a document and in a bundle
+    def tv(y):
+        return ["time", str(y), "3", "31", "9", "21", "0", "0", "none"]
+
+    def qv(l):
+        return ["qn", "ex", EXU, l]
+    shapes = [("Activity", "startTime", tv), ("Activity", "endTime", tv), ("Generation", "time", tv),
+              ("Generation", "entity", qv), ("Generation", "activity", qv), ("Usage", "entity", qv),
+              ("Association", "plan", qv), ("Derivation", "usage", qv), ("Start", "trigger", qv),
+              ("Attribution", "entity", qv), ("Invalidation", "time", tv)]
+    for in_bundle in (False, True):
+        for kind, attr, mk in shapes:
+            a = ["Q", "prov", I.PROV.uri, attr]
+            v1, v2 = (mk(2012), mk(2013)) if mk is tv else (mk("v1"), mk("v2"))
+            for members in ([None, v1, v2], [v1, None, v2], [None, v1, v1], [v1, None, v1, v2]):
+                p = [["NewDoc"], ["AddNs", ["d", "0"], "ex", EXU]]
+                c = ["d", "0"]
+                if in_bundle:
+                    p.append(["NewBundle", "0", ["S", "ex:b"]])
+                    c = ["b", "0", "0"]
+                for i, v in enumerate(members):
+                    attrs = [[["S", "ex:k"], ["int", str(i)]]]
+                    if v is not None:
+                        attrs.append([a, v])
+                    p.append(["NewRecord", c, kind, ["S", "ex:r"], attrs])
+                p.append(["Unified", "0"])
+                out.append(p)
     return out
 
 
